@@ -404,7 +404,12 @@ class FileStorage(
         with the index.  Any invalid record records or inconsistent
         object positions cause zero to be returned.
         """
-        r = self._check_sanity(index, pos)
+        try:
+            r = self._check_sanity(index, pos)
+        except Exception:
+            # What the index points at cannot even be read as transaction
+            # and data records: it does not describe this file.
+            r = 0
         if not r:
             logger.warning("Ignoring index for %s", self._file_name)
         return r
